@@ -25,6 +25,13 @@ type Case struct {
 	Cumulative bool     `json:"cumulative"` // temporality selector of the reader
 	Reuse      bool     `json:"reuse"`      // one ResourceMetrics reused by all collections
 	ViaOption  bool     `json:"via_option"` // explicit: boundaries passed with WithExplicitBucketBoundaries, no view
+	// RawView: explicit, not ViaOption: the boundaries reach the aggregator
+	// through a hand-written sdkmetric.View FUNCTION (no NewView validation)
+	// and in the shuffled order given by Shuffle (a list of swaps); the
+	// aggregator keeps its own sorted copy, so the data point must report the
+	// sorted bounds with every value in (lower, upper].
+	RawView bool  `json:"raw_view,omitempty"`
+	Shuffle []int `json:"shuffle,omitempty"`
 	Bounds     []vk.F64 `json:"bounds"`     // explicit
 	MaxSize    int32    `json:"max_size"`   // expo
 	MaxScale   int32    `json:"max_scale"`  // expo
@@ -439,6 +446,10 @@ func genCase(expo bool) func(t *rapid.T) Case {
 		} else {
 			c.Bounds = genBounds(t)
 			c.ViaOption = len(c.Bounds) > 0 && rapid.IntRange(0, 3).Draw(t, "viaoption") == 0
+			if !c.ViaOption && len(c.Bounds) > 1 && rapid.IntRange(0, 3).Draw(t, "rawview") == 0 {
+				c.RawView = true
+				c.Shuffle = rapid.SliceOfN(rapid.IntRange(0, len(c.Bounds)-1), 1, 6).Draw(t, "shuffle")
+			}
 		}
 		g.mode = []int{0, 0, 0, 1, 1, 2, 3, 3}[uni(t, "mode", 8)]
 		g.wide = uni(t, "wide", 4) == 3
